@@ -16,6 +16,7 @@ import (
 	"encoding/json"
 	"errors"
 	"io"
+	"math"
 	"net/http"
 	"regexp"
 	"runtime"
@@ -47,6 +48,7 @@ type Script struct {
 	Name       string   `json:"name"`
 	MaxHits    int      `json:"max_hits"`             // pacer answers stop once this many hits were released (safety net for unlimited scripts), 0 = none
 	TimeoutMs  int      `json:"timeout_ms,omitempty"` // request timeout of the client, 0 = none
+	WaitUs     int      `json:"wait_us,omitempty"`    // unit of Waits in microseconds (0 = 1000: milliseconds)
 }
 
 func pick(xs []int, i int, def int) int {
@@ -83,7 +85,11 @@ func (p *scriptPacer) Pace(elapsed time.Duration, hits uint64) (time.Duration, b
 		}
 		stop = (p.sc.StopCall > 0 && k >= p.sc.StopCall) || (p.sc.MaxHits > 0 && int(hits) >= p.sc.MaxHits)
 		if !stop {
-			wait = time.Duration(pick(p.sc.Waits, k-1, 0)) * time.Millisecond
+			unit := time.Millisecond
+			if p.sc.WaitUs > 0 {
+				unit = time.Duration(p.sc.WaitUs) * time.Microsecond
+			}
+			wait = time.Duration(pick(p.sc.Waits, k-1, 0)) * unit
 		}
 		p.tr.EmitLocked("Pace", KV{"t": p.now(), "elapsed": elapsed.Microseconds(), "elapsed_ns_rem": int64(elapsed % time.Microsecond),
 			"hits": hits, "wait": wait.Microseconds(), "stop": stop})
@@ -91,7 +97,13 @@ func (p *scriptPacer) Pace(elapsed time.Duration, hits uint64) (time.Duration, b
 	return wait, stop
 }
 
-func (p *scriptPacer) Rate(time.Duration) float64 { return 0 }
+// Rate: the loop is to follow Pace, whatever the pacer says its rate is (an adversarial pacer: nothing, or a huge rate)
+func (p *scriptPacer) Rate(time.Duration) float64 {
+	if p.sc.ID%2 == 0 {
+		return math.Inf(1)
+	}
+	return []float64{0, 1e9}[p.sc.ID%4/2]
+}
 
 type scriptRT struct {
 	tr  *Tracer
